@@ -364,8 +364,21 @@ def generate(prop, seed, tier, modes, conn_share=0.0):
     s = Streams(seed)
     rng = s('gen')
     spec = gen_dsg.gen_selection_spec(rng, n_incompat_max=rng.choice([0, 0, 3]), p_cycle=0.0,
-                                      p_shared=rng.choice([0.0, 0.3, 0.7]), acyclic=True,
+                                      p_shared=0.0, acyclic=True, tree_options=True,
                                       max_choices=rng.choice([0, 1, 2, 3, 4, 4]))
+    if len(spec['sel']) >= 2 and rng.random() < 0.3:
+        # blocked options: some options of one choice are incompatible with every option of another choice, so vectors
+        # that pick them have to be corrected to a (possibly distant) neighbour
+        a, b = rng.sample(spec['sel'], 2)
+        if len(b[2]) > len(a[2]):
+            a, b = b, a
+        blocked = rng.sample(a[2], rng.randint(1, max(1, len(a[2]) - 1)))
+        if rng.random() < 0.6:
+            blocked = a[2][-max(len(blocked), min(2, len(a[2]) - 1)):]  # the highest option indices
+        for x in blocked:
+            for y in b[2]:
+                if x != y and [x, y] not in spec['incompat'] and [y, x] not in spec['incompat']:
+                    spec['incompat'].append([x, y])
     spec = gen_dsg.clean_incompat(spec)
     spec = gen_dsg.add_dv_metrics(rng, spec, n_metric_max=0)
     if conn_share and rng.random() < conn_share:
